@@ -188,6 +188,7 @@ def gen_group(rng, focus="C20", k=None, maxops=40):
     members = rng.choice([1, 2])
     for c in range(members):
         create(c)
+    waited = False
     for _ in range(rng.randint(4, 12)):
         r = rng.random()
         if r < 0.5 and live:
@@ -202,6 +203,12 @@ def gen_group(rng, focus="C20", k=None, maxops=40):
             sync()
             if rng.random() < 0.8 or not live:
                 create(c)
+        elif r < 0.93 and not waited:
+            # long enough for the members' background commits (interval mode, 5 s): a member that lost a
+            # partition stores what it consumed of it last, possibly behind the new owner's offset
+            waited = True
+            emit("cwait 5600")
+            sync()
         else:
             sync()
     if not live:
